@@ -288,6 +288,9 @@ func init() {
 				// 16 chunks of 10 K (-B 10K): the buffer-size probing ends with the first ack and the window of unacknowledged chunks fills
 				{Dir: "up", Tree: "one:R:120000", Bufsize: 10240, Timeout: 3},
 				{Dir: "down", Tree: "one:R:120000", Bufsize: 10240, Timeout: 3},
+				// -y onto an existing file: the prefix-hash exchange (64-byte blocks) has messages of its own that may fall silent
+				{Dir: "up", Tree: "one:E:300", Overwrite: true, DstPre: "c08:same@200", HashStep: 64, Timeout: 3},
+				{Dir: "down", Tree: "one:E:300", Overwrite: true, DstPre: "c08:same@200", HashStep: 64, Timeout: 3},
 			}
 			if tier == "thorough" {
 				cfgs = append(cfgs,
